@@ -93,7 +93,66 @@ func (s *scanner) BeginEexec(ivLen int) error {
 }
 
 func (s *scanner) EndEexec() {
+	// The scanner has consumed the white-space character which ended the last
+	// token of the section.  If this was the CR of a CR+LF line end, the LF
+	// is part of the same line end: consume it as well, so that its cipher
+	// text is not mistaken for clear text.
+	if len(s.peek) == 1 && s.peek[0] == '\r' {
+		s.skipEncryptedLF()
+	}
 	s.eexec = 0
+}
+
+// skipEncryptedLF consumes the next encrypted byte, if this byte decodes to
+// a line feed.  Otherwise the input is left untouched.
+func (s *scanner) skipEncryptedLF() {
+	const window = 16
+	for tries := 0; s.used-s.pos < window && tries < 4; tries++ {
+		if s.refill() != nil {
+			break
+		}
+	}
+	raw := s.buf[s.pos:s.used]
+	if len(raw) > window {
+		raw = raw[:window]
+	}
+
+	var c byte
+	n := 0
+	switch s.eexec {
+	case 1: // hex
+		digits := 0
+		for digits < 2 {
+			if n >= len(raw) {
+				return
+			}
+			b := raw[n]
+			n++
+			switch {
+			case b <= 32:
+				continue
+			case b >= '0' && b <= '9':
+				c = c<<4 | (b - '0')
+			case b >= 'A' && b <= 'F':
+				c = c<<4 | (b - 'A' + 10)
+			case b >= 'a' && b <= 'f':
+				c = c<<4 | (b - 'a' + 10)
+			default:
+				return
+			}
+			digits++
+		}
+	case 2: // binary
+		if len(raw) == 0 {
+			return
+		}
+		c, n = raw[0], 1
+	default:
+		return
+	}
+	if c^byte(s.r>>8) == '\n' {
+		s.pos += n
+	}
 }
 
 func (s *scanner) eexecDecode(b byte) byte {
